@@ -32,7 +32,8 @@ def replay_behaviour(beh, want=('C01', 'C02', 'C03'), canon=False, variant=None)
     pool = {}
     for s, t in enumerate(beh['init']):
         if t['legs']:
-            pool[s + 1] = npc.storage_variant(npc.build_array(chinfo, t), beh.get('variant', 0) if variant is None else variant)
+            pool[s + 1] = npc.storage_variant(npc.build_array(chinfo, t, dtype_variant=beh.get('dtype_variant', 0)),
+                                              beh.get('variant', 0) if variant is None else variant)
             if 'C01' in want:
                 clause = npc.compare_tensor(npc.project_array(pool[s + 1]), t, mods)
                 if clause:
